@@ -254,10 +254,10 @@ def kcount_task(p, cfg, rec):
 
 
 # ---------------------------------------------------------------------------------------------------
-def run_resp(size, vw, horizon, values=None, rec=None, change=False):
+def run_resp(size, vw, horizon, values=None, rec=None, change=False, szw=3, ready_free=None):
     with quiet():
         s = py4hw.HWSystem()
-        vin, sz, sr = s.wire('vin', vw), s.wire('size', 3), s.wire('start_resp')
+        vin, sz, sr = s.wire('vin', vw), s.wire('size', szw), s.wire('start_resp')
         ready, valid, v = s.wire('ready'), s.wire('valid'), s.wire('v', 8)
         CMDResponse(s, 'dut', vin, sz, sr, ready, valid, v)
         if values is None:
@@ -283,7 +283,12 @@ def run_resp(size, vw, horizon, values=None, rec=None, change=False):
         sr.put(1 if t == 1 else 0)
         if change and t == 2:
             vin.put(x2)
-        if values is None:
+        if ready_free is not None and t >= ready_free:
+            rv = z3.BoolVal(True) if values is None else 1        # consumer always ready from here on
+            if values is None:
+                vars_['ready_%d' % t] = rv
+            ready.put(1)
+        elif values is None:
             rb, rv = core.fresh_bool('ready_%d' % t)
             vars_['ready_%d' % t] = rv
             ready.put(core.ite(rb, 1, 0))
@@ -299,7 +304,8 @@ def run_resp(size, vw, horizon, values=None, rec=None, change=False):
 def resp_task(p, cfg, rec):
     size, vw, horizon, tail = cfg['size'], cfg['vw'], cfg['horizon'], cfg['tail']
     change = cfg.get('change', False)
-    log, vars_, xv = run_resp(size, vw, horizon, rec=rec, change=change)
+    szw, ready_free = cfg.get('szw', 3), cfg.get('ready_free')
+    log, vars_, xv = run_resp(size, vw, horizon, rec=rec, change=change, szw=szw, ready_free=ready_free)
     p.res['states'] += 1
     p.res['transitions'] += horizon
     # expected character sequence
@@ -325,7 +331,7 @@ def resp_task(p, cfg, rec):
         cnt = core.simplify_value(core.ite(hs, cnt + 1, cnt))
 
     def replay(values):
-        lg, _, _ = run_resp(size, vw, horizon, values=values, change=change)
+        lg, _, _ = run_resp(size, vw, horizon, values=values, change=change, szw=szw, ready_free=ready_free)
         chars = [c for (vld, c, r) in lg if vld == 1 and r]
         want = '=' + ('%0*X' % (size, values['vin'] & ((1 << (4 * size)) - 1))) + '!'
         got = ''.join(chr(c) if 32 <= c < 127 else '\\x%02x' % c for c in chars)
@@ -365,6 +371,11 @@ def tasks_for(tier):
             hz = 8 + 4 * (size + 2) if quick else 14 + 5 * (size + 2)
             t.append(('CMDResponse size %d vin %d bits, symbolic ready per cycle, horizon %d' % (size, vw, hz), resp_task,
                       {'size': size, 'vw': vw, 'horizon': hz, 'tail': 3 * (size + 2) + 3}))
+    # more digits than the value has (the wrapper's size wire is 8 bits wide): symbolic ready for the first cycles, then always ready
+    for size, vw in (((9, 32), (16, 32)) if quick else ((8, 32), (9, 32), (12, 32), (16, 32), (17, 64), (33, 32))):
+        hz = 10 + 3 * (size + 2) + 6
+        t.append(('CMDResponse size %d vin %d bits, 8-bit size wire, symbolic ready for 10 cycles then always ready, horizon %d' % (size, vw, hz), resp_task,
+                  {'size': size, 'vw': vw, 'horizon': hz, 'tail': hz - 10, 'szw': 8, 'ready_free': 10}))
     for size in ((2, 4) if quick else (1, 2, 3, 4)):
         hz = 8 + 4 * (size + 2) if quick else 14 + 5 * (size + 2)
         t.append(('CMDResponse size %d vin 16 bits replaced by another value right after the start, symbolic ready per cycle, horizon %d' % (size, hz), resp_task,
@@ -380,7 +391,7 @@ def main(argv=None):
         assumptions=['digits are upper-case hexadecimal characters (well-formed commands)', 'index wires 8 bit, value wire 16 bit: numbers are compared modulo the wire width',
                      'a character is consumed at an edge with ready and valid high; producer pacing from enumerated delay patterns',
                      'K<n>; with symbolic n only for n <= 4 (9 thorough); response liveness under "ready high during the last cycles of the horizon"'],
-        bounds={'digits': '1..4 per number', 'commands': '1..2 per run (3 thorough)', 'response': 'size 1..4, value 16 bits (8/16/32 thorough), ready symbolic for every cycle of the horizon; also with the value wire replaced by a second symbolic value in the cycle after the start pulse (the response must still carry the value selected at the start)'},
+        bounds={'digits': '1..4 per number', 'commands': '1..2 per run (3 thorough)', 'response': 'size 1..4 (and 9, 16 digits with an 8-bit size wire; thorough also 8, 12, 17, 33), value 16 bits (8/16/32 thorough), ready symbolic for every cycle of the horizon; also with the value wire replaced by a second symbolic value in the cycle after the start pulse (the response must still carry the value selected at the start)'},
         trusted_base=['z3', 'symx operator semantics and fork-and-merge shell', 'monitors in checks/c20.py'], task_limit=1500)
 
 
